@@ -41,6 +41,8 @@ def c12(tier):
     import c_net
     c_net.run_scn(v, wd, "C12", c_net.Scn("stages212", topo="T2", menu="MenuTrans", start="StartTrans", stages="Stages212", tx="TxZero",
                                           max_inv=4, max_t=6), mc=False)
+    # tear-down must reach every module even when the run recorded errors
+    c_net.run_scn(v, wd, "C12", c_net.Scn("panic_end", menu="MenuPanic", start="StartPanic", tx="TxZero", max_inv=4, max_t=6), mc=False)
     v.cov["rule"] = ("every sequence of <= 5 (6) SimBuilder::node calls over the 21 paths of depth <= 3 built from names {a, ab, b} "
                      "(shared prefixes; at most one rejected call: duplicate or missing parent), stage counts 0..2 derived from the path, "
                      "two name embeddings (incl. multi-byte): call outcome, Sim::nodes order, the (path, stage) sequence of at_sim_start, "
